@@ -8,6 +8,7 @@ import (
 	"path/filepath"
 	"sort"
 	"strings"
+	"verif/tools/internal/absint"
 
 	"golang.org/x/tools/go/ssa"
 
@@ -199,7 +200,34 @@ func checkC03(c *Ctx) *core.Result {
 	}
 	r.OK("R-sep", disp.Var, "letter dispatch is case-symmetric", "-", "26 pairs")
 
-	r.Explanation = "NECESSARY CONDITIONS ONLY — this check decides the structural parts listed here, not detection. R-fp: the 147 fingerprints that a fixed canonical attack grammar (9 context prefixes × 9 separators × 29 payloads × 7 tails × 3 case assignments) maps to were computed once, at design time, by running the pinned code, and are frozen in baseline/required_fingerprints.json; the check verifies statically (E2) that each is still an 'F' key. R-ctx: the parsing-context cascade, gates, per-pass reset and virtual-quote wiring (all rules of C12). R-gate: verdict = blacklist ∧ whitelist (C08 V2–V4). R-sep (closed-initialiser evaluation of the dispatch table): the SQL white-space bytes are dispatched to the skipping lexer, the white predicate's tabulated set is inside the skipped set, '/' reaches the `*/` search, '-' and '#' reach the end-of-line comment lexer, quotes reach the string lexer, letter dispatch is case-symmetric. NOT decided: that tokenizer+folder still map each member of the grammar to those fingerprints (folding rules, comment/number lexing) — that is input→output behaviour."
+	// ---- R-lex: the lexers keep tokens and cursor consistent (E3, shared with C16 / C18):
+	// every terminator found (comment `*/`, newline, quote) is consumed, every token lies in
+	// the span its step consumed — a comment or string that is partly re-tokenized changes
+	// the fingerprint of every attack that uses it as separator
+	if env := newE3Env(c, r); len(r.Violations) == 0 {
+		sr := &sqlRoots{env: env}
+		sr.runAll(func(name string, hooks *absint.Hooks) {
+			c16Hooks(sr, name, hooks)
+			ohitHooks(sr, name, hooks)
+		})
+		residuals := loadResiduals(c, r)
+		lex := map[string]bool{"O-hit": true, "O-str": true, "A-span": true, "A-clip": true, "P-step": true}
+		n := 0
+		for _, o := range mergeObs(sr.runs) {
+			if !lex[o.Rule] {
+				continue
+			}
+			n++
+			o2 := *o
+			o2.Rule = "R-lex/" + o.Rule
+			emitObs(r, []*absint.Ob{&o2}, residuals, "C03", nil)
+		}
+		if n < 60 {
+			r.Fail("vacuity", "-", "lexer consistency obligations", "-", fmt.Sprintf("only %d generated", n))
+		}
+	}
+
+	r.Explanation = "NECESSARY CONDITIONS ONLY — this check decides the structural parts listed here, not detection. R-lex (E3 relational abstract interpretation of every SQL lexer from an arbitrary cursor): every search hit (comment terminator, newline, closing quote) lies behind the returned cursor, string tokens end at their terminator, every token lies inside the span its scan step consumed, the stored length is the clipped scanned length, every step consumes ≥ 1 byte. R-fp: the 147 fingerprints that a fixed canonical attack grammar (9 context prefixes × 9 separators × 29 payloads × 7 tails × 3 case assignments) maps to were computed once, at design time, by running the pinned code, and are frozen in baseline/required_fingerprints.json; the check verifies statically (E2) that each is still an 'F' key. R-ctx: the parsing-context cascade, gates, per-pass reset and virtual-quote wiring (all rules of C12). R-gate: verdict = blacklist ∧ whitelist (C08 V2–V4). R-sep (closed-initialiser evaluation of the dispatch table): the SQL white-space bytes are dispatched to the skipping lexer, the white predicate's tabulated set is inside the skipped set, '/' reaches the `*/` search, '-' and '#' reach the end-of-line comment lexer, quotes reach the string lexer, letter dispatch is case-symmetric. NOT decided: that tokenizer+folder still map each member of the grammar to those fingerprints (folding rules, comment/number lexing) — that is input→output behaviour."
 	r.Trusted = []string{"baseline/required_fingerprints.json (calibrated once on the pinned tree)", "go/types constants", "closed-initialiser evaluation", "rules of C12 and C08"}
 	return r
 }
